@@ -96,9 +96,12 @@ type progOpts struct {
 	taint      bool
 	directives bool
 	nastyLits  bool // string literals and map keys with quotes, backslashes, line terminators, </script>, astral runes (C14)
+	core       bool // C04 core subset: no floats, small integers, multiplication mostly by a small literal, range() only as a loop list
+	useIj      bool // some expressions read $ij.n (int) and $ij.s (string)
 }
 
 type progGen struct {
+	topList bool // the expression being generated is the list of a foreach (core: range() allowed only there)
 	r     *hx.Rand
 	o     progOpts
 	tmpls []*gtemplate
@@ -140,6 +143,12 @@ func (g *progGen) strLit() string {
 }
 
 func (g *progGen) intLit() string {
+	if g.o.core {
+		if g.r.Chance(20) {
+			return fmt.Sprint(g.r.Intn(1000))
+		}
+		return fmt.Sprint(g.r.Intn(10))
+	}
 	switch g.r.Intn(10) {
 	case 0:
 		return "0"
@@ -159,6 +168,9 @@ func (g *progGen) floatLit() string {
 }
 
 func (g *progGen) paren(s string) string {
+	if g.o.core {
+		return "(" + s + ")" // the operand kinds are the intended ones only if no operator regroups them
+	}
 	if g.r.Chance(25) {
 		return "(" + s + ")"
 	}
@@ -174,8 +186,20 @@ func (g *progGen) use(v gvar) string {
 
 // expr generates an expression of kind k.
 func (g *progGen) expr(env genv, k kind, d int) string {
+	top := g.topList
+	g.topList = false
 	if g.o.illTyped > 0 && g.r.Chance(g.o.illTyped) {
 		k = kind(g.r.Intn(int(kNull) + 1))
+	}
+	if g.o.core && k == kFloat {
+		k = kInt
+	}
+	if g.o.useIj && (k == kInt || k == kStr) && g.r.Chance(8) {
+		g.feat("ij")
+		if k == kInt {
+			return g.r.Pick([]string{"$ij.n", "$ij?.n", "$ij['n']"})
+		}
+		return "$ij.s"
 	}
 	vars := env.ofKind(k)
 	if d <= 0 || g.r.Chance(30) {
@@ -223,6 +247,9 @@ func (g *progGen) expr(env genv, k kind, d int) string {
 			return g.paren(e(kInt) + " - " + e(kInt))
 		case 3:
 			g.feat("mul")
+			if g.o.core && !g.r.Chance(10) {
+				return g.paren(g.atomInt(env, d) + " * " + fmt.Sprint(g.r.Intn(10)))
+			}
 			return g.paren(g.atomInt(env, d) + " * " + g.atomInt(env, d))
 		case 4:
 			g.feat("mod")
@@ -258,6 +285,9 @@ func (g *progGen) expr(env genv, k kind, d int) string {
 			return g.r.Pick([]string{"min", "max"}) + "(" + e(kInt) + ", " + e(kInt) + ")"
 		case 12:
 			g.feat("floor")
+			if g.o.core {
+				return g.r.Pick([]string{"floor", "ceiling", "round"}) + "(" + e(kInt) + ")"
+			}
 			return g.r.Pick([]string{"floor", "ceiling", "round"}) + "(" + e(kFloat) + ")"
 		case 13:
 			if len(env.loops) > 0 {
@@ -328,6 +358,10 @@ func (g *progGen) expr(env genv, k kind, d int) string {
 			}
 			return "true"
 		case 10:
+			if g.o.core {
+				g.feat("lt")
+				return g.paren(e(kInt) + " < " + e(kInt))
+			}
 			g.feat("lt-float")
 			return g.paren(e(kFloat) + " < " + e(kFloat))
 		case 11:
@@ -360,7 +394,11 @@ func (g *progGen) expr(env genv, k kind, d int) string {
 			return g.floatLit()
 		}
 	case kListInt:
-		switch g.r.Intn(5) {
+		c5 := g.r.Intn(5)
+		if g.o.core && !top && c5 < 2 {
+			c5 = 4 // range() is a function only in the Go backend: in the core subset it appears as a loop list only
+		}
+		switch c5 {
 		case 0:
 			g.feat("range")
 			return "range(" + fmt.Sprint(1+g.r.Intn(4)) + ")"
@@ -381,7 +419,7 @@ func (g *progGen) expr(env genv, k kind, d int) string {
 		}
 		return "[" + e(kStr) + ", " + e(kStr) + "]"
 	case kEList:
-		if g.r.Bool() {
+		if g.r.Bool() && (top || !g.o.core) {
 			g.feat("range0")
 			return "range((" + e(kInt) + ") % 3)"
 		}
@@ -420,7 +458,12 @@ func (g *progGen) atomBool(env genv, d int) string {
 	return "(" + g.expr(env, kBool, d-1) + ")"
 }
 
-func (r0 *progGen) printable() []kind { return []kind{kInt, kStr, kBool, kFloat, kInt, kStr} }
+func (r0 *progGen) printable() []kind {
+	if r0.o.core {
+		return []kind{kInt, kStr, kBool, kStr, kInt, kStr}
+	}
+	return []kind{kInt, kStr, kBool, kFloat, kInt, kStr}
+}
 
 var rawTexts = []string{"text ", "a b", "<p>", "</p>", " - ", "x", "  two  spaces ", "&amp;", "\n", "line1\n  line2", "é", "\"q\"", "'", "1 < 2"}
 
@@ -494,6 +537,7 @@ func (g *progGen) block(env genv, d int, n int) string {
 			if g.r.Chance(20) {
 				v.name = g.r.Pick([]string{"i", "x", "a"}) // shadowing
 			}
+			g.topList = true
 			sb.WriteString("{foreach $" + v.name + " in " + g.expr(env, k, d-1) + "}")
 			sb.WriteString(g.block(env.withLoop(v), d-1, 1+g.r.Intn(2)))
 			if k == kEList || g.r.Chance(20) {
@@ -744,6 +788,9 @@ func genBundle(r *hx.Rand, o progOpts) (files []srcFile, entry string, dataSets 
 		seen := map[string]bool{}
 		for j := 0; j < np; j++ {
 			p := paramPool[r.Intn(len(paramPool))]
+			if o.core && p.k == kFloat {
+				continue
+			}
 			if !seen[p.name] {
 				seen[p.name] = true
 				t.params = append(t.params, p)
@@ -832,6 +879,9 @@ func attrSrcG(a string) string {
 func genValue(r *hx.Rand, k kind, o progOpts) data.Value {
 	switch k {
 	case kInt:
+		if o.core {
+			return data.Int([]int64{0, 1, 2, 3, 7, -1, -5, 42, 100, 999}[r.Intn(10)])
+		}
 		return data.Int([]int64{0, 1, 2, 3, 7, -1, -5, 42, 1 << 33, (1 << 52) + 1}[r.Intn(10)])
 	case kStr:
 		s := strPool[r.Intn(len(strPool))]
